@@ -1961,3 +1961,76 @@ def rule_stem_agreement(rep: Report, repo: Repo, rule: str) -> None:
                       f"generated target (and the page is unreachable)",
                       witness="Toolchain.CMake (mixed-case extension) or a.b.cmake (dot in the name)")
     rep.floor(rule, 1, "stem computations")
+
+
+def _order_dependent_decisions(fn: ast.FunctionDef, parents) -> List[Tuple[ast.AST, str, str]]:
+    """(statement, carried name, loop iterable) for every removal / skip inside a for loop whose condition reads a container or
+    counter that the same loop updates, while the loop does not run over a sorted() sequence: which element is dropped then
+    depends on the order in which the elements arrive."""
+    out: List[Tuple[ast.AST, str, str]] = []
+    for loop in walk_no_nested(fn):
+        if not isinstance(loop, ast.For):
+            continue
+        it = loop.iter
+        # for x in copy.copy(L) / list(L) / L[:]: the order of L
+        while isinstance(it, ast.Call) and call_name(it) in ("copy.copy", "list", "tuple", "copy", "reversed") and len(it.args) == 1:
+            it = it.args[0]
+        if isinstance(it, ast.Call) and call_name(it) == "sorted":
+            continue
+        carried: Set[str] = set()
+        for n in ast.walk(loop):
+            if isinstance(n, ast.Call) and isinstance(n.func, ast.Attribute) and isinstance(n.func.value, ast.Name) \
+                    and n.func.attr in ("add", "append", "update", "extend", "insert", "setdefault"):
+                carried.add(n.func.value.id)
+            if isinstance(n, ast.AugAssign) and isinstance(n.target, ast.Name):
+                carried.add(n.target.id)
+            if isinstance(n, ast.Subscript) and isinstance(n.ctx, ast.Store) and isinstance(n.value, ast.Name):
+                carried.add(n.value.id)
+        tgt = {x.id for x in ast.walk(loop.target) if isinstance(x, ast.Name)}
+        iter_names = {x.id for x in ast.walk(loop.iter) if isinstance(x, ast.Name)}
+        carried -= tgt
+        if not carried:
+            continue
+        for n in ast.walk(loop):
+            is_drop = (isinstance(n, ast.Call) and isinstance(n.func, ast.Attribute) and n.func.attr in ("remove", "pop", "discard")
+                       and isinstance(n.func.value, ast.Name) and n.func.value.id in iter_names) or isinstance(n, (ast.Continue, ast.Delete))
+            if not is_drop:
+                continue
+            for g in guards_of(fn, n, parents):
+                if not any(g.test is a or any(g.test is d for d in ast.walk(a)) for a in ast.walk(loop)):
+                    continue            # guard outside the loop
+                # locals computed in the loop from ... (one hop is enough for `real = realpath(x); if real in seen`)
+                names = {x.id for x in ast.walk(g.test) if isinstance(x, ast.Name)}
+                hit = sorted(names & carried)
+                if hit:
+                    out.append((n, hit[0], norm(loop.iter)))
+                    break
+    return out
+
+
+def rule_no_order_dependent_pruning(rep: Report, repo: Repo, rule: str) -> None:
+    """Which files and directories are processed is a function of the *set* of directory entries: a filter whose decision for
+    one entry depends on the entries seen before it (a `visited` set, a counter, a 'first one wins' flag) makes the result depend
+    on the order in which the operating system lists the directory, unless the loop runs over the sorted listing."""
+    rep.rule(rule, "inside document(), no removal / skip decision in a loop over an unsorted listing reads state that the same loop "
+                   "accumulates (first-come-first-kept filters)")
+    dm = DocumentModel(repo)
+    fn = dm.fn
+    parents = repo.module(MOD).parents
+    hits = _order_dependent_decisions(fn, parents)
+    for n, name, it in hits:
+        rep.bad(rule, f"{MOD}:document", f"{norm(n)[:50]} under a test of `{name}` in `for ... in {it[:40]}`",
+                f"whether an entry is dropped depends on `{name}`, which the same loop fills while it runs over the listing as the "
+                f"operating system returned it: of two entries that collide, the one listed first wins, so pages and toctrees "
+                f"change with the directory order", witness="two sibling directories resolving to the same target (a symlink next to its target)")
+    loops = sum(1 for x in walk_no_nested(fn) if isinstance(x, ast.For))
+    rep.ok(rule, f"{MOD}:document", f"{loops} loops inspected, {len(hits)} order-dependent decision(s)")
+    # positive control
+    import os
+    from ..core import VERIF_DIR
+    ctree = ast.parse(open(os.path.join(VERIF_DIR, "controls", "first_wins.py")).read())
+    cpar = {ch: p for p in ast.walk(ctree) for ch in ast.iter_child_nodes(p)}
+    got = {f.name: len(_order_dependent_decisions(f, cpar)) for f in ctree.body if isinstance(f, ast.FunctionDef)}
+    if got != {"first_wins": 1, "sorted_first_wins": 0, "stateless": 0}:
+        raise AnalysisError(f"positive control controls/first_wins.py: {got}")
+    rep.ok(rule, "controls/first_wins.py", "positive control: 1 hit in first_wins, 0 in the sorted and the stateless twin")
